@@ -207,3 +207,19 @@ func vfsList(dir string) []string {
 	}
 	return out
 }
+
+// vfsListKinds: the kinds (1 directory, 2 file) of the entries vfsList returns, in the same order.
+func vfsListKinds(dir string) []int {
+	d := verifPathElems(dir)
+	i := vfsFind(d)
+	if i < 0 || vfs[i].kind == 2 {
+		return nil
+	}
+	out := []int{1}
+	for _, e := range vfs {
+		if len(e.elems) > len(d) && hasPrefixElems(e.elems, d) {
+			out = append(out, e.kind)
+		}
+	}
+	return out
+}
